@@ -16,6 +16,7 @@
 -/
 import Sio.Lemmas.ClientSpec
 import Sio.Lemmas.ClientStep
+import Sio.Lemmas.ClientTransport
 namespace Sio.C08
 open Sio Sio.Client
 
@@ -225,6 +226,14 @@ theorem reset (cfg : Cfg) {h : List Input} {v : View} {t : List Note}
   · rw [hR.ns_live, hd.1]; rfl
   · rw [hR.bin, hd.1]; rfl
   · rw [hR.sid, hd.1]; rfl
+
+/-- **C08.reset**, the part that needs no hypothesis at all — after *every* history (conformant
+    peer or not, the three known regions included): while the transport is down the client holds
+    no session id and no half-received binary packet. -/
+theorem reset_transport (cfg : Cfg) (h : List Input) :
+    (run cfg init h).1.eio = .disconnected →
+      (run cfg init h).1.binbuf = none ∧ (run cfg init h).1.sid = none :=
+  tinv_run cfg h init TInv_init
 
 /-! ### the excluded regions: full statements and negation witnesses
 
